@@ -53,6 +53,8 @@ def classify_use(fn, mem_nid):
             # passed as an argument
             if s and s['qname'] in _PURE_CALLEES:
                 return ('read', 'argument of ' + s['name'])
+            if s and s['qname'] in ('std::invoke', 'std::__invoke') and n.get('args') and n['args'][0] == cur:
+                return ('read', 'invoked through std::invoke')     # the callable is called, not replaced
             if s:
                 args = n.get('args', [])
                 if cur in args:
